@@ -18,9 +18,17 @@ def judge(prop, tier, seed, viols, sig_fn, repro_fn, group_key=None):
         if key not in first or v["srcline"] < first[key]["srcline"]:
             first[key] = v
     by_sig = {}
+    # (every file is read once for all the lines needed from it: a flood of failing steps over traces of millions of lines
+    # must not turn into one scan per step)
+    want = {}
+    for v in first.values():
+        want.setdefault(v["src"], set()).add(v["srcline"])
+        if v.get("resetline"):
+            want[v["src"]].add(v["resetline"])
+    got = {src: vlib.read_many(src, nums) for src, nums in want.items()}
     for key, v in sorted(first.items(), key=lambda kv: (kv[1]["src"], kv[1]["srcline"])):
-        line = vlib.read_line(v["src"], v["srcline"])
-        rs = vlib.read_line(v["src"], v["resetline"]) if v.get("resetline") else None
+        line = got[v["src"]].get(v["srcline"])
+        rs = got[v["src"]].get(v["resetline"]) if v.get("resetline") else None
         by_sig.setdefault(sig_fn(v, line, rs), []).append((v, line, rs))
     for nsig, (sig, items) in enumerate(sorted(by_sig.items())):
         k = vlib.match_known(prop, sig)
